@@ -95,6 +95,53 @@ def model_outcome(plan):
     return attempts, failed
 
 
+# HTTP statuses that a client may legitimately treat as momentary and retry INSIDE the budget (the statement fixes "cloud error
+# after at most the configured number of attempts", not whether a gateway error is given a second chance)
+RETRYABLE = {"500", "502", "503", "504"}
+
+
+def model_outcomes(plan):
+    """All outcomes the contract allows: set of (attempts per endpoint, index of the failing endpoint or None).
+    Timeouts are retried until the budget is used up; any other failure ends the flow at once - except that a 5xx answer may
+    also be retried while attempts remain; nothing is ever attempted more often than the budget."""
+    import msmart.cloud as _mc
+    R = _mc.BaseCloud.RETRIES
+
+    def ep_outcomes(seq):
+        outs = set()
+
+        def rec(i, n):
+            a = seq[i]
+            n += 1
+            if a == "ok":
+                outs.add((n, True))
+            elif a == "timeout":
+                if n < R:
+                    rec(i + 1, n)
+                else:
+                    outs.add((n, False))
+            else:
+                outs.add((n, False))
+                if a in RETRYABLE and n < R:
+                    rec(i + 1, n)
+        rec(0, 0)
+        return outs
+    results = set()
+
+    def walk(i, attempts):
+        if i == len(EPS):
+            results.add((tuple(attempts), None))
+            return
+        seq = (list(plan[EPS[i]]) + ["ok"] * R)[:max(R, 1)]
+        for n, ok in ep_outcomes(seq):
+            if ok:
+                walk(i + 1, attempts + [n])
+            else:
+                results.add((tuple(attempts + [n] + [0] * (len(EPS) - 1 - i)), i))
+    walk(0, [])
+    return results
+
+
 def run_flow(acc, plan, tokens, udpid, bogus=False):
     w = World()
     region, account, password = creds_for(acc)
@@ -165,21 +212,28 @@ def run_shard(shard, tier) -> Stats:
                 o2, s2 = run_flow(acc, plan, tokens, udpid)
                 det.check((str(out), srv.counts), (str(o2), s2.counts), case)
             attempts, failed = model_outcome(plan)
+            allowed = model_outcomes(plan)
             prob = None
-            got_attempts = [srv.counts.get(ep, 0) for ep in EPS]
+            got_attempts = tuple(srv.counts.get(ep, 0) for ep in EPS)
             want_attempts = attempts + [0] * (3 - len(attempts))
+            succeeded = out[0] == "ok"
+            match = [f for a_, f in allowed if a_ == got_attempts and (f is None) == succeeded]
             if check_server(st, case, srv, "flow"):
                 prob = "rejected"
-            elif got_attempts != want_attempts:
-                prob = f"attempts per request {got_attempts}, contract says {want_attempts}"
-            elif failed is None:
-                if out[0] != "ok" or tuple(out[1]) != ("a0" * 64, "a1" * 32):
+            elif out[0] != "ok" and not isinstance(out[1], CloudError):
+                prob = f"failure must surface as CloudError, got {str(out)[:80]}"
+            elif not match:
+                if not any(a_ == got_attempts for a_, f in allowed):
+                    prob = f"attempts per request {list(got_attempts)}, contract says {want_attempts}" + (" (or a 5xx answer retried inside the budget)" if len(allowed) > 1 else "")
+                elif succeeded:
+                    prob = "flow succeeded although a request failed for good"
+                else:
                     prob = f"flow should succeed with the matching credentials, got {str(out)[:80]}"
-            else:
-                if out[0] != "exc" or not isinstance(out[1], CloudError):
-                    prob = f"failure at request {failed} must surface as CloudError, got {str(out)[:80]}"
+            elif succeeded and tuple(out[1]) != ("a0" * 64, "a1" * 32):
+                prob = f"flow should succeed with the matching credentials, got {str(out)[:80]}"
+            failed = None if succeeded else next((i for i in (2, 1, 0) if got_attempts[i]), 0)
             if prob and prob != "rejected":
-                st.violation("flow: " + prob.split(",")[0].split(" [")[0], case, {"attempts": want_attempts, "fails_at": failed}, prob)
+                st.violation("flow: " + prob.split(",")[0].split(" [")[0].split(" (")[0], case, {"allowed (attempts, fails_at)": sorted(allowed, key=str)[:4]}, prob)
             st.ev(("flow", p0, p1, p2), "ok" if failed is None else f"CloudError@{failed}", True,
                   sample=None if len(st.samples) else {**case, "requests": [r["path"] for r in srv.requests]})
     elif kind == "lists":
@@ -249,21 +303,23 @@ def run_discover2(st: Stats, pidx: int):
                 import msmart.cloud as _mc
                 first_final = next((a for a in (list(PATTERNS[pidx]) + ["ok"] * _mc.BaseCloud.RETRIES)[:_mc.BaseCloud.RETRIES] if a != "timeout"), "timeout")
                 clean = first_final == "ok"
+                # a 5xx answer may be retried inside the budget (see model_outcomes): both endings are acceptable then
+                either = first_final in RETRYABLE and list(PATTERNS[pidx]).index(first_final) + 1 < _mc.BaseCloud.RETRIES
                 if check_server(st, case, srv, "discover2"):
                     prob = "rejected"
                 elif out[0] != "ok":
                     if not isinstance(out[1], CloudError):
                         prob = f"discover raised {type(out[1]).__name__} (only CloudError is a documented cloud failure)"
-                    elif clean:
+                    elif clean and not either:
                         prob = f"discover raised CloudError although the fault pattern recovers within the retry budget: {str(out[1])[:60]}"
-                elif not clean:
+                elif not clean and not either:
                     prob = "a cloud failure (HTTP error / API error / exhausted timeouts) did not surface as a CloudError"
                 elif max(srv.counts.values()) > _mc.BaseCloud.RETRIES * (len(ids) + 1):
                     prob = f"more attempts than the retry budget allows: {srv.counts}"
                 else:
                     got = sorted((d.id, d.token, d.key) for d in out[1])
                     want = sorted((did, t.hex(), k.hex()) for did, t, k in devs)
-                    if clean and got != want:
+                    if (clean or either) and got != want:
                         prob = "devices not authenticated with their registered credentials"
                 if prob and prob != "rejected":
                     st.violation("discover2: " + prob.split(":")[0].split(" (")[0], case, "all requests verify; devices authenticated or CloudError", prob)
